@@ -11,10 +11,12 @@ from engine.vsym import build, drivers
 class CppFilter:
     """Generated C++ of one corpus program (EKF or plain Model), compiled with double -> Sym; concrete twin lazily."""
 
-    def __init__(self, p, *, ekf=True, cse=True, k=5.0, max_dt=0.1, container="list", reverse=False, noise=None, extra_body=None, extra_includes=(), cal_container="set"):
+    def __init__(self, p, *, ekf=True, cse=True, k=5.0, max_dt=0.1, container="list", reverse=False, noise=None, extra_body=None, extra_includes=(), cal_container="set", history=True):
         self.p, self.ekf, self.cse, self.k, self.max_dt = p, ekf, cse, k, max_dt
         self.container, self.reverse, self.noise = container, reverse, noise
         self.cal_container = cal_container
+        self.history = history
+        self.gen_info = {}
         self.dir = None
         self.exe = None
         self.exe_c = None
@@ -30,7 +32,8 @@ class CppFilter:
         try:
             buf = io.StringIO()
             with contextlib.redirect_stdout(buf):
-                h, s = build.generate(self.p, self.dir, ekf=self.ekf, cse=self.cse, k=self.k, max_dt=self.max_dt, container=self.container, reverse=self.reverse, noise=self.noise, cal_container=self.cal_container)
+                h, s = build.generate(self.p, self.dir, ekf=self.ekf, cse=self.cse, k=self.k, max_dt=self.max_dt, container=self.container, reverse=self.reverse, noise=self.noise, cal_container=self.cal_container, warm_program=self._warm_program())
+            self.gen_info = dict(build.generate.last_info)
             self.header_text = open(h).read()
             self.source_text = open(s).read()
             self.includes = ["#include <formak/gen.h>", '#include "gen.cpp"'] + self.extra_includes
@@ -42,6 +45,14 @@ class CppFilter:
             build.cleanup(self.dir)
             raise
         return self
+
+    def _warm_program(self):
+        """A differently shaped program (opposite control / calibration presence) generated first in the same process."""
+        if not self.history:
+            return None
+        from corpus import programs as CP
+
+        return CP.P3().restrict(control=not bool(self.p.control), calibration=not bool(self.p.calibration), pid="warm")
 
     def compile_symbolic(self):
         self.exe = build.compile_driver(self.dir, self.body, includes=self.includes)
